@@ -194,7 +194,7 @@ Theorem C16_writer_literal_steps :
 Proof. exact writer_literal_steps. Qed.
 Print Assumptions C16_writer_literal_steps.
 
-(* For every file whose element and attribute names are plain after html.EscapeString (the parser admits only
+(* For every file whose element and attribute names are plain after html.EscapeString (the parser allows only
    ASCII letters, digits and - . : _ @ * in names): every literal is a concatenation of pieces, each of which is
    escapeQuotes (Gen.qesc) of some bytes, plain ASCII text without double quote, backslash and LF, or the two bytes
    backslash double-quote.  Hence it scans as one Go string literal and holds no raw LF (one line of the text file). *)
